@@ -768,4 +768,384 @@ example : runSession [[47,112,117,98],[47,112,114,105,118]] [47]
     [.chdir [47,112,117,98], .lookup [110], .chdir [47,112,114,105,118], .lookup [110]] =
     [some ([47,112,117,98], [47,110]), some ([47,112,114,105,118], [47,110])] := by decide
 
+/-! ### the local filesystem used over time: host paths handed out and handed back
+
+`MkdirTemp` returns, `WalkDir` reports to its callback and the files returned by
+`Create`/`Open`/`OpenFile` name HOST paths (`<base>/t-123`, `<base>/data/x`).  A caller may hand
+such a path back, with anything appended.  The statements below are about every sequence of
+calls, every argument built that way, every generated name and every directory content. -/
+
+/-- `r` lies in the directory tree whose root has the components `cb` -/
+def Under (rooted : Bool) (cb : List Path) (r : Path) : Prop :=
+  ∃ rest, Good rest ∧ r = render rooted (cb ++ rest)
+
+theorem good_append {a b : List Path} (ha : Good a) (hb : Good b) : Good (a ++ b) := by
+  intro x hx
+  rcases List.mem_append.1 hx with h | h
+  · exact ha x h
+  · exact hb x h
+
+theorem good_single {n : Path} (hn : plain n = true) (hs : 47 ∉ n) : Good [n] := by
+  intro x hx
+  simp only [List.mem_cons, List.not_mem_nil, or_false] at hx
+  subst hx
+  exact ⟨hn, hs⟩
+
+/-- the base stored by `localfs.New` is the rendering of plain, separator-free components -/
+theorem newBase_repr (b0 base : Path) (hbase : newBase b0 = some base) (h1 : base ≠ []) :
+    ∃ cb, Good cb ∧ base = render (isAbs b0) cb := by
+  have hb0 : b0.isEmpty = false := by
+    cases b0 with
+    | nil => simp_all [newBase]
+    | cons _ _ => rfl
+  simp only [newBase, hb0, Bool.false_eq_true, ↓reduceIte] at hbase
+  split at hbase
+  · cases hbase
+  · rename_i hpre
+    simp only [Option.some.injEq] at hbase
+    have hpre' : hasPrefix (cleanStr b0) dotdot = false := by simpa using hpre
+    obtain ⟨cb, hrb, hcb⟩ := cleanStr_repr b0 hpre'
+    exact ⟨cb, hcb, by rw [← hbase, hrb]⟩
+
+/-- `resolvePath_confined` for a base given by its components -/
+theorem resolvePath_under (rb : Bool) (cb : List Path) (base p r : Path) (hcb : Good cb)
+    (hb : base = render rb cb) (h2 : base ≠ [47])
+    (h : resolvePath base p = .ok r) : Under rb cb r := by
+  have h1 : base ≠ [] := by rw [hb]; exact render_ne_nil rb cb hcb
+  unfold resolvePath at h
+  simp only at h
+  split at h
+  · cases h
+  · rename_i hc
+    have hc' : hasPrefix (cleanStr p) dotdot = false := by simpa using hc
+    obtain ⟨cp, hrp, hcp⟩ := cleanStr_repr p hc'
+    have hbe : (base == [] || base == [47]) = false := by
+      rw [beq_false_of_ne h1, beq_false_of_ne h2]; rfl
+    rw [hbe] at h
+    simp only [Bool.false_eq_true, ↓reduceIte, Res.ok.injEq] at h
+    have hbne : base.isEmpty = false := by
+      cases hh : base with
+      | nil => exact absurd hh h1
+      | cons _ _ => rfl
+    have hcne : (cleanStr p).isEmpty = false := by
+      rw [hrp]; cases hh : render (isAbs p) cp with
+      | nil => exact absurd hh (render_ne_nil _ cp hcp)
+      | cons _ _ => rfl
+    refine ⟨cp, hcp, ?_⟩
+    rw [← h, join2, hbne, hcne]
+    simp only [Bool.and_self, Bool.false_eq_true, ↓reduceIte]
+    rw [hb, hrp, clean_join_render _ _ cb cp hcb hcp]
+
+theorem render_isEmpty (rb : Bool) (cs : List Path) (h : Good cs) : (render rb cs).isEmpty = false := by
+  cases hh : render rb cs with
+  | nil => exact absurd hh (render_ne_nil _ cs h)
+  | cons _ _ => rfl
+
+/-- `filepath.Join(dir, name)` of a rendered directory and a directory-entry name -/
+theorem join2_render_comp (rb : Bool) (cs : List Path) (n : Path) (hcs : Good cs)
+    (hn : plain n = true) (hs : 47 ∉ n) : join2 (render rb cs) n = render rb (cs ++ [n]) := by
+  have hne : n ≠ [] := ((plain_iff n).1 hn).1
+  have h2 : n.isEmpty = false := by
+    cases hh : n with
+    | nil => exact absurd hh hne
+    | cons _ _ => rfl
+  have hr : render false [n] = n := by simp [render, joinSep]
+  rw [join2, render_isEmpty rb cs hcs, h2]
+  simp only [Bool.and_self, Bool.false_eq_true, ↓reduceIte]
+  have := clean_join_render rb false cs [n] hcs (good_single hn hs)
+  rw [hr] at this
+  exact this
+
+theorem foldl_join2_render (rb : Bool) (cs rel : List Path) (hcs : Good cs) (hrel : Good rel) :
+    rel.foldl join2 (render rb cs) = render rb (cs ++ rel) := by
+  induction rel generalizing cs with
+  | nil => simp
+  | cons n rel ih =>
+    simp only [List.foldl_cons]
+    rw [join2_render_comp rb cs n hcs (hrel n (by simp)).1 (hrel n (by simp)).2,
+      ih (cs ++ [n]) (good_append hcs (good_single (hrel n (by simp)).1 (hrel n (by simp)).2))
+        (fun x hx => hrel x (by simp [hx]))]
+    simp
+
+theorem split_render (rb : Bool) (cs : List Path) (h : Good cs) (hne : cs ≠ []) :
+    split (render rb cs) = if rb then [] :: cs else cs := by
+  have hs : ∀ x ∈ cs, 47 ∉ x := fun x hx => (h x hx).2
+  cases rb with
+  | true => simp [render, split, split_joinSep cs hne hs]
+  | false =>
+    cases cs with
+    | nil => exact absurd rfl hne
+    | cons c t => simp [render, split_joinSep (c :: t) hne hs]
+
+/-- a rendered, non-empty component list does not end with a separator -/
+theorem render_no_trailing_sep (rb : Bool) (cs : List Path) (h : Good cs) (hne : cs ≠ []) :
+    hasSuffixSlash (render rb cs) = false := by
+  cases hh : hasSuffixSlash (render rb cs) with
+  | false => rfl
+  | true =>
+    exfalso
+    obtain ⟨k', hk'⟩ := getLast_eq_snoc (by simpa [hasSuffixSlash] using hh)
+    have hsp : split (render rb cs) = split k' ++ [[]] := by rw [hk', split_snoc_sep]
+    rw [split_render rb cs h hne] at hsp
+    have hl : cs.getLast? = some [] := by
+      cases rb with
+      | true =>
+        have : ([] :: cs).getLast? = some [] := by
+          have e : ([] :: cs : List Path) = split k' ++ [[]] := by simpa using hsp
+          rw [e]; simp
+        cases cs with
+        | nil => exact absurd rfl hne
+        | cons c t => simpa [List.getLast?_cons_cons] using this
+      | false =>
+        have e : cs = split k' ++ [[]] := by simpa using hsp
+        rw [e]; simp
+    have hmem : ([] : Path) ∈ cs := List.mem_of_getLast? hl
+    have := ((plain_iff []).1 (h [] hmem).1).1
+    exact this rfl
+
+theorem render_snoc (rb : Bool) (cs : List Path) (n : Path) (hne : cs ≠ []) :
+    render rb (cs ++ [n]) = render rb cs ++ 47 :: n := by
+  have hj : joinSep (cs ++ [n]) = joinSep cs ++ 47 :: n := by
+    rw [joinSep_append cs [n] hne (by simp)]; simp [joinSep]
+  cases rb with
+  | true => simp [render, hj]
+  | false =>
+    cases cs with
+    | nil => exact absurd rfl hne
+    | cons c t =>
+      simp only [render, Bool.false_eq_true, ↓reduceIte, List.cons_append, List.isEmpty_cons]
+      exact hj
+
+/-- the path `os.MkdirTemp` builds from a rendered directory and the generated name -/
+theorem hostJoin_render (rb : Bool) (cs : List Path) (n : Path) (h : Good cs) (hne : cs ≠ []) :
+    hostJoin (render rb cs) n = render rb (cs ++ [n]) := by
+  rw [hostJoin, render_no_trailing_sep rb cs h hne, render_snoc rb cs n hne]
+  simp
+
+/-- what a session must supply about the environment: a generated temporary name and the
+    directory-entry names below a walked root are plain names (not empty, `.`, `..`; no
+    separator) — what the operating system guarantees of directory entries -/
+def LOp.WF : LOp → Prop
+  | .mkdirTemp _ name => plain name = true ∧ 47 ∉ name
+  | .walk _ rels => ∀ rel ∈ rels, Good rel
+  | _ => True
+
+/-- everything touched and everything handed out so far lies under the base -/
+def LInv (rb : Bool) (cb : List Path) (st : LState) : Prop :=
+  (∀ r ∈ st.touched, Under rb cb r) ∧ (∀ r ∈ st.handed, Under rb cb r)
+
+theorem under_base (rb : Bool) (cb : List Path) : Under rb cb (render rb cb) :=
+  ⟨[], by simp [Good], by simp⟩
+
+theorem linv_extend (rb : Bool) (cb : List Path) (st : LState) (ts hs : List Path)
+    (hinv : LInv rb cb st) (ht : ∀ r ∈ ts, Under rb cb r) (hh : ∀ r ∈ hs, Under rb cb r) :
+    LInv rb cb { handed := st.handed ++ hs, touched := st.touched ++ ts } := by
+  refine ⟨?_, ?_⟩
+  · intro r hr
+    rcases List.mem_append.1 hr with h | h
+    · exact hinv.1 r h
+    · exact ht r h
+  · intro r hr
+    rcases List.mem_append.1 hr with h | h
+    · exact hinv.2 r h
+    · exact hh r h
+
+theorem walkPaths_under (rb : Bool) (cb : List Path) (r : Path) (rels : List (List Path))
+    (hcb : Good cb) (hr : Under rb cb r) (hrels : ∀ rel ∈ rels, Good rel) :
+    ∀ x ∈ walkPaths r rels, Under rb cb x := by
+  obtain ⟨rest, hrest, rfl⟩ := hr
+  intro x hx
+  simp only [walkPaths, List.mem_cons, List.mem_map] at hx
+  rcases hx with rfl | ⟨rel, hrel, rfl⟩
+  · exact ⟨rest, hrest, rfl⟩
+  · rw [foldl_join2_render rb (cb ++ rest) rel (good_append hcb hrest) (hrels rel hrel)]
+    exact ⟨rest ++ rel, good_append hrest (hrels rel hrel), by simp⟩
+
+theorem lstep_inv (rb : Bool) (cb : List Path) (base : Path) (hcb : Good cb) (hne : cb ≠ [])
+    (hb : base = render rb cb) (h2 : base ≠ [47]) (st : LState) (op : LOp) (hwf : op.WF)
+    (hinv : LInv rb cb st) : LInv rb cb (lstep base st op) := by
+  have hres : ∀ p r, localResolve base p = .ok r → Under rb cb r :=
+    fun p r h => resolvePath_under rb cb base p r hcb hb h2 h
+  have hsame : LInv rb cb { handed := st.handed, touched := st.touched } := hinv
+  cases op with
+  | access a =>
+    simp only [lstep]
+    split
+    · rename_i r hr
+      have := linv_extend rb cb st [r] [] hinv (by simpa using hres _ r hr) (by simp)
+      simpa using this
+    · exact hinv
+  | openFile a =>
+    simp only [lstep]
+    split
+    · rename_i r hr
+      exact linv_extend rb cb st [r] [r] hinv (by simpa using hres _ r hr) (by simpa using hres _ r hr)
+    · exact hinv
+  | access2 a b =>
+    simp only [lstep]
+    split
+    · exact hinv
+    · rename_i r1 hr1
+      split
+      · exact hinv
+      · rename_i r2 hr2
+        have := linv_extend rb cb st [r1, r2] [] hinv (by
+          intro r hr
+          simp only [List.mem_cons, List.not_mem_nil, or_false] at hr
+          rcases hr with rfl | rfl
+          · exact hres _ _ hr1
+          · exact hres _ _ hr2) (by simp)
+        simpa using this
+  | mkdirTemp dir name =>
+    simp only [lstep]
+    split
+    · rename_i d hd
+      have hdu : Under rb cb d := by
+        unfold mkdirTempDir at hd
+        split at hd
+        · simp only [Res.ok.injEq] at hd
+          rw [← hd, hb]; exact under_base rb cb
+        · exact hres _ d hd
+      obtain ⟨rest, hrest, rfl⟩ := hdu
+      have hu : Under rb cb (hostJoin (render rb (cb ++ rest)) name) := by
+        rw [hostJoin_render rb (cb ++ rest) name (good_append hcb hrest) (by simp [hne])]
+        exact ⟨rest ++ [name], good_append hrest (good_single hwf.1 hwf.2), by simp⟩
+      exact linv_extend rb cb st [_] [_] hinv (by simpa using hu) (by simpa using hu)
+    · exact hinv
+  | walk root rels =>
+    simp only [lstep]
+    split
+    · rename_i r hr
+      have hw := walkPaths_under rb cb r rels hcb (hres _ r hr) hwf
+      exact linv_extend rb cb st _ _ hinv hw hw
+    · exact hinv
+
+theorem lrun_inv (rb : Bool) (cb : List Path) (base : Path) (hcb : Good cb) (hne : cb ≠ [])
+    (hb : base = render rb cb) (h2 : base ≠ [47]) (ops : List LOp) (hwf : ∀ op ∈ ops, op.WF)
+    (st : LState) (hinv : LInv rb cb st) : LInv rb cb (ops.foldl (lstep base) st) := by
+  induction ops generalizing st with
+  | nil => exact hinv
+  | cons op ops ih =>
+    simp only [List.foldl_cons]
+    exact ih (fun o ho => hwf o (by simp [ho])) _
+      (lstep_inv rb cb base hcb hne hb h2 st op (hwf op (by simp)) hinv)
+
+/-- **A rooted local filesystem stays confined over ANY sequence of calls, also when the host
+    paths it handed out itself come back.**  For every base that `localfs.New` accepts (other
+    than the unrooted ones `""`, `/` and the working directory `.`), every sequence of calls —
+    one-path and two-path operations, `MkdirTemp`, `WalkDir`, opening files — whose path
+    arguments are arbitrary byte strings OR any host path handed out earlier in the session
+    (a `MkdirTemp` result, a path reported by `WalkDir`, a file's `Name()`) with arbitrary bytes
+    appended (`/../..`, a sibling's name, anything), every generated temporary name and every
+    directory content: each host path that reaches the Go `os` package and each host path
+    handed to the caller is the rendering of the base's components followed by plain
+    components — it lies under the base at a component boundary, with no `.`/`..`/empty
+    component left. -/
+theorem lsession_confined (b0 base : Path) (hbase : newBase b0 = some base)
+    (h1 : base ≠ []) (h2 : base ≠ [47]) (h3 : base ≠ [46])
+    (ops : List LOp) (hwf : ∀ op ∈ ops, op.WF) :
+    ∃ cb, Good cb ∧ cb ≠ [] ∧ base = render (isAbs b0) cb ∧
+      ∀ r, (r ∈ (lrun base ops).touched ∨ r ∈ (lrun base ops).handed) → Under (isAbs b0) cb r := by
+  obtain ⟨cb, hcb, hb⟩ := newBase_repr b0 base hbase h1
+  have hne : cb ≠ [] := by
+    intro e
+    subst e
+    cases hr : isAbs b0 with
+    | true => rw [hr] at hb; exact h2 (by simpa [render, joinSep] using hb)
+    | false => rw [hr] at hb; exact h3 (by simpa [render] using hb)
+  have hinv := lrun_inv (isAbs b0) cb base hcb hne hb h2 ops hwf {} ⟨by simp, by simp⟩
+  refine ⟨cb, hcb, hne, hb, ?_⟩
+  intro r hr
+  rcases hr with h | h
+  · exact hinv.1 r h
+  · exact hinv.2 r h
+
+/-- string-level reading of `Under`: the base itself, or the base, a separator and more bytes -/
+theorem under_string (rb : Bool) (cb : List Path) (r : Path) (hne : cb ≠ []) (h : Under rb cb r) :
+    r = render rb cb ∨ ∃ s, r = render rb cb ++ 47 :: s := by
+  obtain ⟨rest, _, rfl⟩ := h
+  cases rest with
+  | nil => left; simp
+  | cons c t =>
+    right
+    refine ⟨joinSep (c :: t), ?_⟩
+    have hj := joinSep_append cb (c :: t) hne (by simp)
+    cases rb with
+    | true => simp [render, hj]
+    | false =>
+      cases cb with
+      | nil => exact absurd rfl hne
+      | cons d u =>
+        simp only [render, Bool.false_eq_true, ↓reduceIte, List.cons_append, List.isEmpty_cons]
+        exact hj
+
+/-- … read on strings: everything a session touches or hands out is the base directory itself
+    or begins with the base directory followed by a separator -/
+theorem lsession_confined_string (b0 base : Path) (hbase : newBase b0 = some base)
+    (h1 : base ≠ []) (h2 : base ≠ [47]) (h3 : base ≠ [46])
+    (ops : List LOp) (hwf : ∀ op ∈ ops, op.WF) (r : Path)
+    (hr : r ∈ (lrun base ops).touched ∨ r ∈ (lrun base ops).handed) :
+    r = base ∨ ∃ s, r = base ++ 47 :: s := by
+  obtain ⟨cb, _, hne, hb, hall⟩ := lsession_confined b0 base hbase h1 h2 h3 ops hwf
+  rw [hb]
+  exact under_string (isAbs b0) cb r hne (hall r hr)
+
+/-- **No path that begins with the filesystem's own host base directory gets out**, whatever
+    follows the base: for every byte string `s`, `<base>/s` is either refused or resolved under
+    the base.  (The base directory is no secret — `MkdirTemp` and `WalkDir` disclose it.) -/
+theorem own_host_prefix_confined (b0 base s r : Path) (hbase : newBase b0 = some base)
+    (h1 : base ≠ []) (h2 : base ≠ [47]) (h : localResolve base (base ++ 47 :: s) = .ok r) :
+    ∃ cb rest, Good cb ∧ Good rest ∧ base = render (isAbs b0) cb
+      ∧ r = render (isAbs b0) (cb ++ rest) :=
+  resolvePath_confined b0 base _ r hbase h1 h2 h
+
+theorem cleanStr_render_rooted (cs : List Path) (h : Good cs) :
+    cleanStr (render true cs) = render true cs := by
+  have hab : isAbs (render true cs) = true := by simp [render, isAbs]
+  rw [cleanStr, render_isEmpty true cs h]
+  simp only [Bool.false_eq_true, ↓reduceIte, hab, cleanComps]
+  rw [foldl_split_render true true [] cs h]
+  simp
+
+/-- **What the code does with a host path that comes back: it nests it under the base a second
+    time.**  For an absolute base with components `cb`, a path under it, `<base>/rest`, handed
+    back as it is resolves to `<base>/<base>/rest` — never to itself.  (An inconvenience for the
+    caller, and exactly what keeps the raw string from being trusted.) -/
+theorem handed_back_nests (cb rest : List Path) (base : Path) (hcb : Good cb) (hrest : Good rest)
+    (hb : base = render true cb) (h2 : base ≠ [47]) :
+    localResolve base (render true (cb ++ rest)) = .ok (render true (cb ++ (cb ++ rest))) := by
+  have hg := good_append hcb hrest
+  have hnp : hasPrefix (render true (cb ++ rest)) dotdot = false := by
+    simp [render, hasPrefix, dotdot]
+  have h1 : base ≠ [] := by rw [hb]; exact render_ne_nil true cb hcb
+  have hbe : (base == [] || base == [47]) = false := by
+    rw [beq_false_of_ne h1, beq_false_of_ne h2]; rfl
+  unfold localResolve resolvePath
+  simp only [cleanStr_render_rooted _ hg, hnp, hbe, Bool.false_eq_true, ↓reduceIte, Res.ok.injEq]
+  rw [join2, hb, render_isEmpty true cb hcb, render_isEmpty true _ hg]
+  simp only [Bool.and_self, Bool.false_eq_true, ↓reduceIte]
+  exact clean_join_render true true cb (cb ++ rest) hcb hg
+
+-- base "/srv"; MkdirTemp("") hands out "/srv/t1"; "/srv/t1" ++ "/../../etc" is then read
+def srvBase : Path := [47,115,114,118]
+def climb : Path := [47,46,46,47,46,46,47,101,116,99]
+
+/-- a concrete session: the handed-out path with `/../../etc` appended stays inside -/
+theorem handed_back_session_example :
+    lrun srvBase [.mkdirTemp (.lit []) [116,49], .access (.handed 0 climb)] =
+      { handed := [srvBase ++ [47,116,49]],
+        touched := [srvBase ++ [47,116,49], srvBase ++ [47,101,116,99]] } := by decide
+
+example : LOp.WF (.mkdirTemp (.lit []) [116,49]) := ⟨by decide, by decide⟩
+example : newBase srvBase = some srvBase := by decide
+
+/-- accepting "our own host paths" as they are, recognised on the RAW string, is NOT
+    equivalent: `/srv/t1/../../etc` begins with `/srv/`, is passed on verbatim, and names the
+    host's `/etc`; the code resolves the same string to `/srv/etc`. -/
+theorem passthrough_escapes :
+    localResolvePassThrough srvBase (srvBase ++ [47,116,49] ++ climb) = .ok (srvBase ++ [47,116,49] ++ climb)
+    ∧ cleanStr (srvBase ++ [47,116,49] ++ climb) = [47,101,116,99]
+    ∧ localResolve srvBase (srvBase ++ [47,116,49] ++ climb) = .ok (srvBase ++ [47,101,116,99]) := by
+  decide
+
 end Risor.C13
